@@ -23,7 +23,7 @@ from vt.harness import Outcome
 ID = "C33"
 LEVEL = "exploration"
 CASES = {"quick": 3000, "thorough": 150000}
-TARGETS = ["own:Cls", "own:Note", "own:Package", "declared:Item", "match:INT", "match:Tag"]
+TARGETS = ["own:Cls", "own:Note", "own:Package", "declared:Item", "match:INT", "match:Tag", "match:Ver", "match:Minor"]
 STYLES = ["plain", "semantic", "full", "partial", "wrapped"]
 RULE = ("generated package trees (depth<=3) x target kind (own rule Cls/Note/Package, abstract declared rule Item, base type "
         "INT, user match rule Tag) x index k of the failing call x raise style (5) x string/file load x generated layout. "
@@ -42,9 +42,12 @@ GRAMMAR = r"""
 Model: packages*=Package;
 Package: 'package' name=ID '{' (packages+=Package | items+=Item)* '}';
 Item: Cls | Note;
-Cls: 'class' name=ID ('=' val=INT)? ('@' tag=Tag)?;
+Cls: 'class' name=ID ('=' val=INT)? ('@' tag=Tag)? ('v' ver=Ver)?;
 Note: 'note' name=ID text=STRING;
 Tag: /#[a-z]+/;
+Ver: Major '.' Minor;
+Major: /\d+/;
+Minor: /\d+/;
 Comment: /\/\/.*?$/ | /\/\*(.|\n)*?\*\//;
 """
 _MM_TEXT = GRAMMAR
@@ -53,7 +56,8 @@ _MM_TEXT = GRAMMAR
 def _item():
     return st.one_of(
         st.fixed_dictionaries({"k": st.just("Cls"), "val": st.one_of(st.none(), st.integers(0, 99)),
-                               "tag": st.one_of(st.none(), st.sampled_from(["#a", "#tag"]))}),
+                               "tag": st.one_of(st.none(), st.sampled_from(["#a", "#tag"])),
+                               "ver": st.one_of(st.none(), st.sampled_from(["3.14", "10.2"]))}),
         st.fixed_dictionaries({"k": st.just("Note")}))
 
 
@@ -104,6 +108,13 @@ def build(case):
                 w.tok("@")
                 s = w.tok(e["tag"])
                 matches.append({"kind": "Tag", "start": s, "end": s + len(e["tag"]), "depth": depth})
+            if e.get("ver") is not None:
+                w.tok("v")
+                s = w.tok(e["ver"])
+                dot = e["ver"].index(".")
+                # a composite match rule: the minor part starts after the dot (processed before the whole match)
+                matches.append({"kind": "Minor", "start": s + dot + 1, "end": s + len(e["ver"]), "depth": depth})
+                matches.append({"kind": "Ver", "start": s, "end": s + len(e["ver"]), "depth": depth})
         else:
             w.tok("note")
             w.tok(f"n{key}")
